@@ -50,7 +50,7 @@ func c18Sequence(rep *Report, m *model.Client, r *rand.Rand, dir string, idx int
 	}
 	n := 4 + r.Intn(12)
 	for i := 0; i < n; i++ {
-		kind := []string{"open", "open", "open-invalid-options", "open-damaged", "open-too-small", "close", "close", "open-wait"}[r.Intn(8)]
+		kind := []string{"open", "open", "open-invalid-options", "open-damaged", "open-too-small", "close", "close", "open-wait", "open-readonly", "open-readonly"}[r.Intn(10)]
 		var impl, mod string
 		switch kind {
 		case "close":
@@ -103,6 +103,12 @@ func c18Sequence(rep *Report, m *model.Client, r *rand.Rand, dir string, idx int
 			opts := good
 			env := [3]bool{true, true, true} // opts_valid, os_ok, init_ok
 			switch kind {
+			case "open-readonly":
+				// the path lock is exclusive whatever the options of the two opens are
+				if !exists {
+					continue
+				}
+				opts.Readonly = true
 			case "open-invalid-options":
 				opts.PageSize = 1000 // not a power of two
 				env[0] = false
@@ -244,7 +250,7 @@ func init() {
 	register("c18", func(args []string) int {
 		f := parseFlags("c18", args)
 		rep := newReport("C18", f)
-		rep.Rule = "random sequences of open / open with invalid options / open of a file whose two headers were destroyed (initialisation fails after the lock was taken) / open while another File holds the path / open with FlagWaitLock while held (must block until the holder closes) / close on real files in a temporary directory; each result class (ok, lock error, other error) and the lock state is compared with Model/OpenLock.v; after every sequence the path must be lockable again; on the simulated disk: a File whose re-mapping failed in a commit (no memory mapping left) is closed - the path lock must be released and the path can be opened again. Non-trivial: distinct step/result sequences."
+		rep.Rule = "random sequences of open / open with Options.Readonly / open with invalid options / open of a file whose two headers were destroyed (initialisation fails after the lock was taken) / open while another File holds the path / open with FlagWaitLock while held (must block until the holder closes) / close on real files in a temporary directory; each result class (ok, lock error, other error) and the lock state is compared with Model/OpenLock.v; after every sequence the path must be lockable again; on the simulated disk: a File whose re-mapping failed in a commit (no memory mapping left) is closed - the path lock must be released and the path can be opened again. Non-trivial: distinct step/result sequences."
 		m, err := model.Start()
 		if err != nil {
 			fmt.Fprintln(os.Stderr, err)
